@@ -123,28 +123,28 @@ def harness_bin(name):
 # ----------------------------------------------------------------------------- TLC
 
 _STATS = re.compile(r"(\d+) states generated, (\d+) distinct states found")
-_JAVA_DEQUE = "-Xss1g -Dtlc2.tool.queue.IStateQueue=StateDeque"
+TLA_CP = "/opt/veriftools/tla/tla2tools.jar:/opt/veriftools/tla/CommunityModules-deps.jar"
 
 
 def tlc(module, cfg, env=None, workers=8, timeout=900, simulate=None, deque=False, heap=None, coverage=True):
     """Run TLC on spec/<module>.tla with spec/<cfg>. Returns dict(out, generated, distinct, rc, wall)."""
     ensure_dirs()
     meta = os.path.join(CACHE, "tlc", "meta-%s-%d" % (module, os.getpid()))
-    cmd = ["tlc", "-workers", str(workers), "-metadir", meta, "-cleanup", "-noGenerateSpecTE"]
+    # java is invoked directly: the main thread (which evaluates constant definitions) only gets a
+    # big stack from -Xss on the command line, not from JAVA_TOOL_OPTIONS
+    cmd = ["java", "-Xss1g", "-XX:+UseParallelGC"]
+    if heap:
+        cmd.append("-Xmx" + heap)
+    if deque:
+        cmd.append("-Dtlc2.tool.queue.IStateQueue=StateDeque")
+    cmd += ["-cp", TLA_CP, "tlc2.TLC", "-workers", str(workers), "-metadir", meta, "-cleanup", "-noGenerateSpecTE"]
     if coverage and not simulate:
         cmd += ["-coverage", "1"]
     if simulate:
         cmd += ["-simulate", simulate]
     cmd += ["-config", cfg, module + ".tla"]
     e = dict(env or {})
-    jopts = []
-    if deque:
-        jopts.append(_JAVA_DEQUE)
-    else:
-        jopts.append("-Xss512m")
-    if heap:
-        jopts.append("-Xmx" + heap)
-    e["JAVA_TOOL_OPTIONS"] = " ".join(jopts)
+    e["JAVA_TOOL_OPTIONS"] = "-Xss1g"
     try:
         rc, out, wall = run(cmd, env=e, cwd=SPEC, timeout=timeout)
     finally:
@@ -222,7 +222,7 @@ def tlc_trace(module, cfg, trace_path, env=None, timeout=1800, max_rejections=8,
             raise ToolError("trace validation %s failed without an UNMATCHED report:\n%s" % (module, tail(out, 60)))
         k = int(m.group(1))            # 1-based index within this part
         abs_ix = offset + k            # 1-based index in the whole trace
-        failed = [(a, b) for a, b, _ in _CHECKFAIL.findall(out)]
+        failed = [(a, b) for a, b, pos in _CHECKFAIL.findall(out) if int(pos) == k]
         rejections.append({"index": abs_ix, "event": json.loads(events[abs_ix - 1]), "failed": failed,
                            "out": tail(out, 40)})
         if len(rejections) >= max_rejections:
